@@ -18,10 +18,13 @@ pub struct Spec {
     pub scripts: Vec<&'static str>,
     /// handles kept by the harness until the verdict
     pub kept: usize,
+    /// the harness holds a second value for the whole run, so that the pool is exhausted while the first one is alive
+    pub fill: bool,
 }
 
 const POOL: usize = 2;
 const ID: u32 = 77;
+const FILL_ID: u32 = 55;
 
 struct Shared<T>(T);
 unsafe impl<T> Sync for Shared<T> {}
@@ -58,33 +61,56 @@ fn make<A: BoundedOgreAllocator<Tracked> + Send + Sync + 'static>(spec: Spec) ->
     tracked::reset();
     let alloc = Arc::new(Shared(A::new()));
     let n = spec.scripts.len() + spec.kept;
+    let filler = if spec.fill { Some(OgreArc::new_with(|slot: &mut Tracked| unsafe { std::ptr::write(slot, Tracked::new(FILL_ID)) }, &alloc.0).unwrap()) } else { None };
+    let filler = Mutex::new(filler);
     let mut hs = handles(&alloc.0, spec.ctor, n);
     let kept: Arc<Mutex<Vec<OgreArc<Tracked, A>>>> = Arc::new(Mutex::new((0..spec.kept).map(|_| hs.pop().unwrap()).collect()));
     let mut bodies: Vec<mcx::Body> = Vec::new();
     for (t, script) in spec.scripts.iter().enumerate() {
-        let mut mine = vec![hs.pop().unwrap()];
+        let mut mine = vec![(hs.pop().unwrap(), ID)];
         let script = *script;
-        let _ = t;
+        let alloc = alloc.clone();
         bodies.push(Box::new(move || {
             for op in script.chars() {
                 match op {
-                    'c' => { if let Some(h) = mine.last() { let c = h.clone(); mcx::rec("clone", 0, 0); mine.push(c) } }
-                    'x' => { if !mine.is_empty() { let h = mine.remove(0); mcx::rec("drop.call", 0, 0); drop(h); mcx::rec("drop.ret", 0, 0) } }
-                    'r' => { if let Some(h) = mine.last() {
-                        let early = tracked::drops_of(ID);
-                        match h.read() { Ok(id) if id == ID && early == 0 => mcx::rec("read", 1, 0), Ok(id) => mcx::rec("read", 0, (id as i64) * 10 + early as i64), Err(_) => mcx::rec("read", -1, early as i64) }
+                    'c' => { if let Some((h, id)) = mine.last() { let c = (h.clone(), *id); mcx::rec("clone", 0, 0); mine.push(c) } }
+                    'x' => { if !mine.is_empty() { let (h, id) = mine.remove(0); mcx::rec("drop.call", id as i64, 0); drop(h); mcx::rec("drop.ret", id as i64, 0) } }
+                    'r' => { if let Some((h, want)) = mine.last() {
+                        mcx::step();
+                        let early = tracked::drops_of(*want);
+                        match h.read() { Ok(id) if id == *want && early == 0 => mcx::rec("read", 1, 0), Ok(id) => mcx::rec("read", 0, (id as i64) * 10 + early as i64), Err(_) => mcx::rec("read", -1, early as i64) }
                     } }
+                    // a new value of its own (the pool may be exhausted: then nothing happens)
+                    'n' => {
+                        let id = 100 + t as u32;
+                        mcx::rec("new.call", id as i64, 0);
+                        match OgreArc::new_with(|slot: &mut Tracked| unsafe { std::ptr::write(slot, Tracked::new(id)) }, &alloc.0) {
+                            Some(h) => { mcx::rec("new.ret", id as i64, 1); mine.push((h, id)) }
+                            None => mcx::rec("new.ret", id as i64, 0),
+                        }
+                    }
                     _ => unreachable!(),
                 }
             }
             // whatever is left is dropped when the thread ends
+            // what is still held is read once more, then dropped when the thread ends
+            for (h, want) in &mine {
+                mcx::step();
+                let early = tracked::drops_of(*want);
+                match h.read() { Ok(id) if id == *want && early == 0 => {}, Ok(id) => mcx::rec("read", 0, (id as i64) * 10 + early as i64), Err(_) => mcx::rec("read", -1, early as i64) }
+            }
             let left = mine.len();
             drop(mine);
             mcx::rec("end", left as i64, 0);
         }));
     }
     let sp = spec.clone();
+    // fields drop in declaration order: the handles must go before the allocator they release into (the verdict closure may be
+    // dropped without ever running)
+    struct Held<H, F, A> { kept: H, filler: F, alloc: A }
+    let held = Held { kept, filler, alloc };
     Instance { bodies, check: Box::new(move |out| {
+        let Held { kept, filler, alloc } = &held;
         let mut v = Vec::new();
         for (t, p) in out.panics.iter().enumerate() { if let Some(p) = p { v.push(("panic".to_string(), format!("thread {t}: {p}"))) } }
         if out.terminal != mcx::Terminal::Done { v.push(("no-termination".into(), format!("execution ended {:?}", out.terminal))); let _ = tracked::take(); return v }
@@ -101,13 +127,23 @@ fn make<A: BoundedOgreAllocator<Tracked> + Send + Sync + 'static>(spec: Spec) ->
             // a second value fits while the first is alive, a third does not
             if v.is_empty() {
                 let extra: Vec<_> = (0..POOL).filter_map(|_| alloc.0.alloc_ref().map(|x| x.1)).collect();
-                if extra.len() != POOL - 1 { v.push(("slot-accounting".into(), format!("with one value alive {} further slots could be allocated on a pool of {POOL}", extra.len()))) }
+                let alive = 1 + sp.fill as usize;
+                if extra.len() != POOL - alive { v.push(("slot-accounting".into(), format!("with {alive} value(s) alive {} further slots could be allocated on a pool of {POOL}", extra.len()))) }
                 for id in extra { unsafe { std::ptr::write(alloc.0.ref_from_id(id), Tracked::new(1000 + id)); } alloc.0.dealloc_id(id) }
             }
             kept.clear();
         }
-        let d = tracked::drops_of(ID);
-        if d != 1 { v.push((if d == 0 { "never-destroyed" } else { "destroyed-twice" }.into(), format!("every handle is gone, the destructor ran {d} time(s): {}", mcx::fmt_log(&out.log)))) }
+        if let Some(f) = filler.lock().unwrap().take() {
+            if f.read() != Ok(FILL_ID) || tracked::drops_of(FILL_ID) != 0 { v.push(("destroyed-while-held".into(), format!("the value held by the harness for the whole run reads {:?}, destructor runs {}: {}", f.read(), tracked::drops_of(FILL_ID), mcx::fmt_log(&out.log)))) }
+            drop(f);
+        }
+        let mut ids = vec![ID];
+        if sp.fill { ids.push(FILL_ID) }
+        ids.extend(out.log.iter().filter(|r| r.op == "new.ret" && r.b == 1).map(|r| r.a as u32));
+        for id in ids {
+            let d = tracked::drops_of(id);
+            if d != 1 { v.push((if d == 0 { "never-destroyed" } else { "destroyed-twice" }.into(), format!("every handle of value {id} is gone, its destructor ran {d} time(s): {}", mcx::fmt_log(&out.log)))) }
+        }
         if v.is_empty() {
             let ids: Vec<_> = (0..POOL + 1).filter_map(|_| alloc.0.alloc_ref().map(|x| x.1)).collect();
             if ids.len() != POOL { v.push(("slot-not-returned".into(), format!("every handle is gone, yet {} of {POOL} slots can be allocated", ids.len()))) }
@@ -124,16 +160,18 @@ fn dispatch(spec: Spec) -> Instance {
 
 pub fn scenarios(tier: Tier) -> Vec<ScenarioDef> {
     let mut defs = Vec::new();
-    let mut scripts: Vec<(&str, Vec<&'static str>, usize)> = vec![
-        ("T2-a", vec!["x", "x"], 0), ("T2-b", vec!["cx", "rx"], 0), ("T2-c", vec!["rx", "cxx"], 0), ("T2-d", vec!["cx", "xr"], 1), ("T2-e", vec!["cxx", "rcx"], 2),
-        ("T3-a", vec!["x", "x", "x"], 0), ("T3-b", vec!["cx", "rx", "x"], 0), ("T3-c", vec!["cx", "x", "rx"], 1),
+    let mut scripts: Vec<(&str, Vec<&'static str>, usize, bool)> = vec![
+        ("T2-a", vec!["x", "x"], 0, false), ("T2-b", vec!["cx", "rx"], 0, false), ("T2-c", vec!["rx", "cxx"], 0, false), ("T2-d", vec!["cx", "xr"], 1, false), ("T2-e", vec!["cxx", "rcx"], 2, false),
+        // a slot being released races an allocation (pool exhausted by the value the harness holds)
+        ("T2-f", vec!["x", "xnnr"], 0, true), ("T2-g", vec!["xn", "xnr"], 0, true),
+        ("T3-a", vec!["x", "x", "x"], 0, false), ("T3-b", vec!["cx", "rx", "x"], 0, false), ("T3-c", vec!["cx", "x", "rx"], 1, false), ("T3-e", vec!["x", "x", "xnnr"], 0, true),
     ];
-    if tier == Tier::Thorough { scripts.push(("T3-d", vec!["cxx", "rcx", "xr"], 0)); scripts.push(("T4-a", vec!["x", "cx", "rx", "x"], 0)); }
+    if tier == Tier::Thorough { scripts.push(("T3-d", vec!["cxx", "rcx", "xr"], 0, false)); scripts.push(("T4-a", vec!["x", "cx", "rx", "x"], 0, false)); scripts.push(("T3-f", vec!["xn", "xnr", "xn"], 0, true)); }
     for atomic in [true, false] {
         for ctor in [Ctor::Clones, Ctor::CloneEach, Ctor::IncRaw, Ctor::FromUnique] {
-            for (idx, (name, sc, kept)) in scripts.iter().enumerate() {
+            for (idx, (name, sc, kept, fill)) in scripts.iter().enumerate() {
                 if tier == Tier::Quick && !atomic && sc.len() > 2 && ctor != Ctor::Clones { continue }
-                let spec = Spec { atomic, ctor, scripts: sc.clone(), kept: *kept };
+                let spec = Spec { atomic, ctor, scripts: sc.clone(), kept: *kept, fill: *fill };
                 let threads = sc.len();
                 // the bodies are a handful of steps long: these bounds are close to unbounded
                 let bound = match tier { Tier::Quick => if threads <= 2 { 6 } else { 4 }, Tier::Thorough => if threads <= 2 { 12 } else if threads == 3 { 8 } else { 5 } };
